@@ -10,6 +10,7 @@
 (*   [k |-> "key", n]                       injected map entry m["n"]      *)
 (*   [k |-> "idx", i]                       injected slice element arr[i]  *)
 (*   [k |-> "idxv", n]                      arr[n] with a local as index   *)
+(*   [k |-> "keyv", n]                      m[n] with a string local as key *)
 (*   [k |-> "bin", op, l, r]                + - * / == != < <= > >= && ||  *)
 (*   [k |-> "not", e]   [k |-> "par", e]                                   *)
 (* statements                                                              *)
@@ -17,7 +18,9 @@
 (*   [k |-> "ev", tag, e]        observer call ev(tag, e)                  *)
 (*   [k |-> "if", c, then, elifs, haselse, else]                           *)
 (*   [k |-> "for", init, c, step, b]                                       *)
-(*   [k |-> "range", v, coll, b]            forRange v := arr / m          *)
+(*   [k |-> "range", v, coll, b]            forRange v := arr              *)
+(*   [k |-> "rangem", v, b]                 forRange v := m  (the keys the *)
+(*                                          map holds when the loop starts) *)
 (*   [k |-> "brk"]  [k |-> "cont"]  [k |-> "ret", has, e]                  *)
 (* every node carries its source line in field `line`.                     *)
 (*                                                                         *)
@@ -82,6 +85,9 @@ Eval(e, s) ==
     [] e.k = "idx" -> IF e.i + 1 \in DOMAIN s.host.arr THEN Ok(I(s.host.arr[e.i + 1]), s) ELSE Err(s, e.line)
     [] e.k = "idxv" -> IF e.n \in DOMAIN s.locals /\ IsInt(s.locals[e.n]) /\ s.locals[e.n].v + 1 \in DOMAIN s.host.arr
                        THEN Ok(I(s.host.arr[s.locals[e.n].v + 1]), s) ELSE Err(s, e.line)
+    [] e.k = "keyv" -> IF e.n \in DOMAIN s.locals /\ IsStr(s.locals[e.n])
+                       THEN Ok(I(IF s.locals[e.n].v \in DOMAIN s.host.m THEN s.host.m[s.locals[e.n].v] ELSE 0), s)
+                       ELSE Err(s, e.line)
     [] e.k = "par" -> Eval(e.e, s)
     [] e.k = "not" -> LET r == Eval(e.e, s) IN
                       IF ~r.ok THEN r ELSE IF IsBool(r.v) THEN Ok(B(~r.v.v), r.st) ELSE Err(r.st, e.line)
@@ -115,7 +121,10 @@ Assign(a, s) ==
        LET w == Store(a.t, nv.v, nv.st, a.line) IN
        IF w.ok THEN R("none", I(0), FALSE, w.st, 0) ELSE R("err", I(0), FALSE, w.st, w.line)
 
-RECURSIVE Run(_, _), Stmt(_, _), Loop(_, _, _), Range(_, _, _, _), Elifs(_, _, _)
+RECURSIVE Run(_, _), Stmt(_, _), Loop(_, _, _), Range(_, _, _, _), Elifs(_, _, _), SeqOf(_)
+\* some enumeration of a finite set (map iteration order is unspecified: bodies of map loops
+\* generated for validation are insensitive to it)
+SeqOf(KS) == IF KS = {} THEN <<>> ELSE LET x == CHOOSE y \in KS : TRUE IN <<x>> \o SeqOf(KS \ {x})
 
 \* a statement list
 Run(ss, s) ==
@@ -148,7 +157,7 @@ Loop(x, s, n) ==
 \* keys: the indices still to visit
 Range(x, keys, s, dummy) ==
   IF keys = <<>> THEN R("none", I(0), FALSE, s, 0) ELSE
-  LET s1 == [s EXCEPT !.locals = (x.v :> I(Head(keys))) @@ @]
+  LET s1 == [s EXCEPT !.locals = (x.v :> (IF x.k = "rangem" THEN S(Head(keys)) ELSE I(Head(keys)))) @@ @]
       b == Run(x.b, s1) IN
   IF b.flag \in {"err", "ret"} THEN b ELSE
   IF b.flag = "brk" THEN R("none", I(0), FALSE, b.st, 0) ELSE Range(x, Tail(keys), b.st, dummy)
@@ -164,6 +173,7 @@ Stmt(x, s) ==
     [] x.k = "for" -> LET i == Assign(x.init, s) IN
                       IF i.flag = "err" THEN i ELSE Loop(x, i.st, 0)
     [] x.k = "range" -> Range(x, [j \in 1..Len(s.host.arr) |-> j - 1], s, 0)
+    [] x.k = "rangem" -> Range(x, SeqOf(DOMAIN s.host.m), s, 0)       \* a snapshot of the keys at loop entry
     [] x.k = "brk" -> R("brk", I(0), FALSE, s, x.line)
     [] x.k = "cont" -> R("cont", I(0), FALSE, s, x.line)
     [] x.k = "ret" -> IF ~x.has THEN R("ret", I(0), FALSE, s, 0)
